@@ -25,6 +25,30 @@ def mc_and_replay_cex(cx, name, c, invariants, properties=(), spec="Spec", maxpo
     return res, None, False
 
 
+def amplify(cx, name, c, results, v, per_case=24, max_cases=8):
+    """Divergence amplification: an execution TLC rejected has left the behaviours of the specification.
+    Its schedule up to the rejected step is re-executed and continued with many seeded random schedules,
+    so that whatever the unmodelled behaviour breaks has a chance to show at the observable level."""
+    byid = {r["id"]: r for r in results}
+    rej = [(rid, step) for rid, step, _ in v["rejected"] if step > 0]
+    if not rej:
+        return
+    cx.rnd.shuffle(rej)
+    rej = rej[:max_cases]
+    cases = []
+    for rid, step in rej:
+        r = byid[rid]
+        prefix = [s[:2] for s in r["sched"][:step]]
+        for k in range(per_case):
+            pol = ("uniform", "pct", "window")[k % 3]
+            cases.append(go_case(c, "%s-amp-%s-%d" % (name, rid, k), cx.rnd, schedule=prefix,
+                                 rand={"seed": cx.rnd.randrange(1 << 40), "policy": pol, "depth": 3},
+                                 sizes=SMALL_SIZES, notrace=True))
+    res = run_driver(cx.driver, "chan", cases, cx.wd, tag=name + "amp")
+    cx.absorb(res, cases)
+    cx.extra_cov["divergence_amplification_runs"] = cx.extra_cov.get("divergence_amplification_runs", 0) + len(cases)
+
+
 def replay_graph(cx, name, c, max_paths=None, maxpolls=2, sizes=None, timeout=900):
     """Edge cover of the state graph of c replayed on the real code, traces validated by TLC,
     walked edges measured."""
@@ -34,12 +58,14 @@ def replay_graph(cx, name, c, max_paths=None, maxpolls=2, sizes=None, timeout=90
     cases = []
     for i, p in enumerate(paths):
         sched = [label_move(l) for _, l, _ in p]
-        cases.append(go_case(c, "%s-p%d" % (name, i), cx.rnd, schedule=sched, sizes=sizes or SMALL_SIZES))
+        cases.append(go_case(c, "%s-p%d" % (name, i), cx.rnd, schedule=sched, sizes=sizes or SMALL_SIZES,
+                             rand={"seed": cx.rnd.randrange(1 << 40), "policy": "uniform", "depth": 3}))
     results = run_driver(cx.driver, "chan", cases, cx.wd, tag=name)
     cx.absorb(results, cases)
     # trace validation uses the real MaxPolls=10 unless the graph was bounded differently
     cv = dict(c)
     v = validate_traces(cx.wd, name + "T", cv, results)
+    amplify(cx, name, c, results, v)
     cx.traces_validated += len(v["accepted"])
     cx.states += v["states"]
     for rid, step, line in v["rejected"]:
@@ -72,6 +98,7 @@ def random_runs(cx, name, c, n, policies=("uniform", "pct", "window"), fault_pro
     cx.absorb(results, cases)
     if traced:
         v = validate_traces(cx.wd, name + "T", c, [r for r in results if r.get("events")])
+        amplify(cx, name, c, results, v)
         cx.traces_validated += len(v["accepted"])
         cx.states += v["states"]
         for rid, step, line in v["rejected"]:
@@ -113,13 +140,14 @@ def check_C01(cx):
     # conformance: every edge of small graphs replayed on the real code
     graphs = [
         ("gq1", cfg({"W1": W("W1"), "W2": W("Wv")}, qsize=1, until=True)),
+        ("gq1x3", cfg({"W1": W("W1", "CW1"), "W2": W("Wv")}, qsize=1, until=True)),
         ("gsync", cfg({"W1": W("W1"), "W2": W("CWv")}, qsize=0)),
     ]
     if not quick:
         graphs += [
             ("gq1nb", cfg({"W1": W("W1", "CW1"), "W2": W("Wv")}, qsize=1, until=False)),
             ("gq2", cfg({"W1": W("W1", "Wv"), "W2": W("CW1")}, qsize=2, until=True)),
-            ("gq1x3", cfg({"W1": W("W1"), "W2": W("Wv"), "W3": W("CWv")}, qsize=1, until=True)),
+            ("gq1w3", cfg({"W1": W("W1"), "W2": W("Wv"), "W3": W("CWv")}, qsize=1, until=True)),
         ]
     for name, c in graphs:
         st = replay_graph(cx, name, c, max_paths=None if not quick else 400)
@@ -334,7 +362,8 @@ def check_C18(cx):
     live = cfg({"W1": W("W1"), "W2": W("Wv"), "W3": W("CW1")}, qsize=1, until=True)
     write_live = ["C18_WaitEnds"]
     mc_and_replay_cex(cx, "MClive", live, ["TypeOK"], properties=write_live, spec="FairSpec", what="C18 blocked writers eventually return")
-    graphs = [("gnb", cfg({"W1": W("W1"), "W2": W("CW1"), "W3": W("Wv")}, qsize=1, until=False))]
+    graphs = [("gnb", cfg({"W1": W("W1"), "W2": W("CW1:far"), "W3": W("CWv:far")}, qsize=1, until=False)),
+              ("gbm", cfg({"W1": W("W1"), "W2": W("CW1:mortal")}, qsize=1, until=True))]
     if not quick:
         graphs += [("gb", cfg({"W1": W("W1"), "W2": W("CW1:mortal"), "W3": W("Wv")}, qsize=1, until=True)),
                    ("gbc", cfg({"W1": W("W1"), "W2": W("CW1")}, {"C1": "e1"}, qsize=1, until=True))]
@@ -342,14 +371,14 @@ def check_C18(cx):
         st = replay_graph(cx, name, c, max_paths=300 if quick else None)
         log("  replay %s: %s" % (name, st))
     big = [
-        ("r5q1nb", cfg({"W%d" % i: W("W1", "CW1", "Wv") for i in range(1, 6)}, qsize=1, until=False)),
+        ("r5q1nb", cfg({"W%d" % i: W("W1", "CW1:far", "CWv:far") for i in range(1, 6)}, qsize=1, until=False)),
         ("r5q2b", cfg({"W%d" % i: W("W1", "CW1:mortal", "Wv") for i in range(1, 6)}, qsize=2, until=True)),
         ("r4q1bc", cfg({"W%d" % i: W("W1", "CWv:mortal") for i in range(1, 5)}, {"C1": "e1"}, qsize=1, until=True)),
         ("r4q3nb", cfg({"W%d" % i: W("Wv", "CW1:dead", "W1") for i in range(1, 5)}, qsize=3, until=False)),
     ]
     n = 30 if quick else 300
     for name, c in big:
-        random_runs(cx, name, c, n, policies=("window", "uniform", "pct"), cancel_prob=0.05, sizes=NZ_SIZES)
+        random_runs(cx, name, c, n, policies=("window", "uniform", "pct", "drain"), cancel_prob=0.05, sizes=NZ_SIZES)
     return finish(cx)
 
 
